@@ -8,8 +8,17 @@ var checks = map[string]check{
 			{Run: "^TestLayoutIndependence$", Quick: 2000, QShards: 4, Thor: 40000, TShards: 14},
 			{Run: "^TestTotality$", Quick: 4000, QShards: 6, Thor: 60000, TShards: 14},
 		},
-		Fuzz: []fuzzJob{{Target: "FuzzParse", Dur: "300s"}},
-		Rule: "fidelity/layout: IDL models drawn by rapid and rendered under drawn layouts (separator, whitespace/comment at every token boundary, quote style, int/double spellings); non-trivial = document with >=5 definitions of >=3 kinds, >=2 separator styles and >=1 comment inside a definition, distinct by text. totality: raw bytes, token soups over the grammar's terminals, deep nesting (child process), valid documents with 1-3 edits; non-trivial = non-raw-bytes input longer than 20 bytes, distinct by content",
+		Fuzz:   []fuzzJob{{Target: "FuzzParse", Dur: "300s"}},
+		Rule:   "fidelity/layout: IDL models drawn by rapid and rendered under drawn layouts (separator, whitespace/comment at every token boundary, quote style, int/double spellings); non-trivial = document with >=5 definitions of >=3 kinds, >=2 separator styles and >=1 comment inside a definition, distinct by text. totality: raw bytes, token soups over the grammar's terminals, deep nesting (child process), valid documents with 1-3 edits; non-trivial = non-raw-bytes input longer than 20 bytes, distinct by content",
 		Assume: []string{"integer spellings with a leading zero (ambiguous octal) and literals ending in a lone backslash are not generated", "names never start with 'required'/'optional' (the grammar reads those as requiredness)", "a watchdog expiry (30 s) must reproduce before it is reported"},
+	},
+	"C05": {
+		ID: "C05", Pkg: "c05",
+		Jobs: []job{
+			{Run: "^TestResolve$", Quick: 1200, QShards: 8, Thor: 40000, TShards: 14},
+			{Run: "^TestOrderIndependence$", Quick: 800, QShards: 6, Thor: 20000, TShards: 14},
+		},
+		Rule:   "multi-file IDL models drawn by rapid (1-4 files, include DAG with diamonds, same base names in different directories, typedef chains, constants in every spelling); non-trivial = program with a typedef chain of length >=2 crossing a file boundary and >=1 identifier constant reference, distinct by program text; order test: non-trivial = >=2 files and a different definition order",
+		Assume: []string{"include literals are spelled so that thriftgo's lookup order (working directory first, including file's directory second) finds the intended file", "global names are unique over the whole program, so two includes with the same prefix never both define a referenced name"},
 	},
 }
